@@ -94,6 +94,7 @@ type funcContract struct {
 	modAll   bool
 	hasMod   bool
 	rawStores bool
+	aliases   map[string]string // locals renamed in the code since the contract was written (from loop hints)
 	inline   map[string]bool
 	concrete map[string]bool
 	inlLoops map[string]map[int]*loopSpec // loop clauses for inlined callees, by callee key
